@@ -932,26 +932,36 @@ func veUseView(v *View, queries []string) (*veViewAnswer, error) {
 }
 
 // veBlockedGoroutines lists the goroutines that are inside the service's job bodies or the converter package
-// (what a job that never finishes is waiting for).
+// (what a job that never finishes is waiting for): header and pkappa2 frames only; converter processes that
+// merely wait for input are counted.
 func veBlockedGoroutines() string {
-	buf := make([]byte, 4<<20)
+	buf := make([]byte, 16<<20)
 	buf = buf[:runtime.Stack(buf, true)]
 	var out []string
+	idle := 0
 	for _, g := range strings.Split(string(buf), "\n\n") {
-		if !strings.Contains(g, "Job(") && !strings.Contains(g, "/converters.") {
+		if !strings.Contains(g, "Job") && !strings.Contains(g, "/converters.") {
 			continue
 		}
 		if strings.Contains(g, "veBlockedGoroutines") {
 			continue
 		}
 		lines := strings.Split(g, "\n")
-		if len(lines) > 17 {
-			lines = lines[:17]
+		keep := []string{lines[0]}
+		frames := 0
+		for i := 1; i+1 < len(lines); i += 2 {
+			if strings.Contains(lines[i], "spq/pkappa2") {
+				keep = append(keep, lines[i], lines[i+1])
+				frames++
+			}
 		}
-		out = append(out, strings.Join(lines, "\n"))
-		if len(out) >= 12 {
-			break
+		if frames == 1 && strings.Contains(g, "converters.(*Process).run(") && strings.Contains(lines[0], "chan receive") {
+			idle++
+			continue
+		}
+		if len(out) < 40 {
+			out = append(out, strings.Join(keep, "\n"))
 		}
 	}
-	return strings.Join(out, "\n--\n")
+	return fmt.Sprintf("%s\n(%d converter processes waiting for input)", strings.Join(out, "\n--\n"), idle)
 }
